@@ -427,6 +427,8 @@ def check_pair(ktype, enc, prefix):
     for b, what in ((pb, "private"), (ub, "public")):
         if (enc == "pem") != b.startswith(b"-----BEGIN "):
             return f"the {what} key file is not {enc.upper()} encoded"
+        if enc == "pem" and (b.count(b"-----BEGIN ") != 1 or not b.rstrip(b"\r\n").endswith(b"-----")):
+            return f"the {what} key file holds more than the one PEM block of the key ({len(b)} bytes, ends with {b[-12:]!r})"
     try:
         priv = (s.load_pem_private_key if enc == "pem" else s.load_der_private_key)(pb, password=None)
         pub = (s.load_pem_public_key if enc == "pem" else s.load_der_public_key)(ub)
@@ -453,6 +455,11 @@ def keys_case(ck, tmp, stream, combo, via="lib"):
     d = tempfile.mkdtemp(prefix="keys-", dir=tmp)
     prefix = os.path.join(d, "k")
     want = keys_expected(ktype, enc, pf, pubf)
+    if want:
+        # a regeneration: both output paths already hold older, LONGER key files
+        for suffix in ("priv", "pub"):
+            with open(f"{prefix}_{suffix}.{enc}", "wb") as fh:
+                fh.write(b"-----BEGIN STALE KEY-----\n" + b"QUFB" * 1500 + b"\n-----END STALE KEY-----\n" if enc == "pem" else b"\x30\x82\x17\x70" + b"\xa5" * 6000)
     if via == "lib":
         r = core.Check.impl(m.main, output_file=prefix, type=ktype, encoding=enc, private_format=pf, public_format=pubf, encryption=encr)
         res = "ok" if r[0] == "ok" else r[1]
